@@ -603,6 +603,60 @@ def gen_op(rng, spec, handles, nonlinear: bool):
     return {"op": "view", "h": h, "idx": rng.shuffle(idx), "how": "get_variant"}
 
 
+def impl_read(m, name, unpack) -> str:
+    """the driver's `read` reply from the real model: m[name] (unpack) / the per-variant list (no unpack)"""
+    try:
+        if unpack:
+            r = m[name]
+            return "ok#read=" + ("[" + ",".join(rat(x) for x in r) + "]" if isinstance(r, list) else rat(r))
+        qid = m.create_name_to_qid()[name]
+        return "ok#read=[" + ",".join(rat(v.levels[qid]) for v in m._variants) + "]"
+    except Exception:
+        return "err:bad#read"
+
+
+def _same(a, b) -> bool:
+    return bits(a) == bits(b)
+
+
+def readback_oracle(ctx: Ctx, snap, m, name, where):
+    """every public spelling of "the value of `name`" agrees: m[name], m.get_value, the getters with unpack_singleton on and
+    off, and the per-variant views m[k][name]; unpacked to a scalar exactly when the model has ONE variant"""
+    if name not in m.get_names():
+        return
+    nv = m.num_variants
+    ctx.count("readback_checks")
+    per_variant = [m[k][name] for k in range(nv)]             # one-variant views: always a scalar
+    if any(isinstance(x, list) for x in per_variant):
+        ctx.fail("readback-spellings-disagree", snap, f"{where}: m[k]['{name}'] of a one-variant view is a list")
+        return
+    spellings = {"m[name]": m[name], "get_value": m.get_value(name)}
+    for getter in ("get_parameters", "get_parameters_stds", "get_stds", "get_steady_levels"):
+        full = getattr(m, getter)(unpack_singleton=False)
+        if name in full.keys():
+            spellings[getter + "(unpack_singleton=False)"] = ("list", list(full[name]))
+            spellings[getter + "()"] = getattr(m, getter)()[name]
+    for sp, val in spellings.items():
+        if isinstance(val, tuple) and val[0] == "list":
+            ok = len(val[1]) == nv and all(_same(a, b) for a, b in zip(val[1], per_variant))
+        elif nv == 1:
+            ok = (not isinstance(val, list)) and _same(val, per_variant[0])
+        else:
+            ok = isinstance(val, list) and len(val) == nv and all(_same(a, b) for a, b in zip(val, per_variant))
+        if not ok:
+            ctx.fail("readback-spellings-disagree", snap,
+                     f"{where}: {sp} of '{name}' on a model with {nv} variant(s) gives {val!r} but the per-variant views m[k]['{name}'] give {per_variant!r}")
+            return
+    # steady changes: both forms of the getter agree with each other
+    ch = m.get_steady_changes(unpack_singleton=False)
+    if name in ch.keys():
+        c2 = m.get_steady_changes()[name]
+        full = list(ch[name])
+        ok = (not isinstance(c2, list) and _same(c2, full[0])) if nv == 1 else (isinstance(c2, list) and all(_same(a, b) for a, b in zip(c2, full)) and len(c2) == nv)
+        if not ok:
+            ctx.fail("readback-spellings-disagree", snap, f"{where}: get_steady_changes()['{name}'] = {c2!r} but unpack_singleton=False gives {full!r}")
+
+
 def run_case(ctx: Ctx, case: dict, gen_rng=None, n_ops: int = 0, oracles: bool = True):
     """executes `case` (spec + ops; when gen_rng is given, ops are generated on the fly and appended to case['ops']);
     returns (request line, implementation reply) or None when the history had to be abandoned"""
@@ -664,19 +718,31 @@ def run_case(ctx: Ctx, case: dict, gen_rng=None, n_ops: int = 0, oracles: bool =
             if now != before[k]:
                 ctx.fail("mutation-leaks-to-other-model", {"spec": spec, "ops": ops[:i]},
                          f"op #{i - 1} {op} on handle {tgt} (family {fam[tgt]}) changed {pub_diff(before[k], now)} of handle {k} (family {fam[k]})")
-        # oracle 1b: per-variant assignment reads back per variant (only for handles whose variants are distinct objects BY
-        # CONSTRUCTION, i.e. not obtained through a view with a repeated index)
-        if status == "ok" and op["op"] == "assign" and dfree[tgt] and isinstance(op["vals"], dict):
-            items = op["vals"]["list"]
-            par = handles[tgt].get_parameters_stds(unpack_singleton=False)
-            if items and all(isinstance(x, float) for x in items) and op["name"] in par.keys():
-                got = par[op["name"]]
+        # oracle 1b: what was assigned reads back, per variant (scalars go to every variant, lists with exhaust-then-last), through
+        # the per-variant views m[k][name]; only for handles whose variants are distinct objects BY CONSTRUCTION, and for names that the
+        # assignment rules leave alone (not shocks)
+        if status == "ok" and op["op"] == "assign" and dfree[tgt]:
+            items = op["vals"]["list"] if isinstance(op["vals"], dict) else [op["vals"]]
+            name = op["name"]
+            if items and all(isinstance(x, float) for x in items) and name in handles[tgt].get_names() \
+                    and not re.match(r"(e\d|w\d|ant_)", name):
                 for kk in range(handles[tgt].num_variants):
                     want = items[min(kk, len(items) - 1)]
-                    if got[kk] != want:
+                    got = handles[tgt][kk][name]
+                    if got != want:
                         ctx.fail("variant-assign-readback", {"spec": spec, "ops": ops[:i]},
-                                 f"op #{i - 1} {op}: variant {kk} of handle {tgt} reads {got[kk]!r}, assigned {want!r}")
+                                 f"op #{i - 1} {op}: variant {kk} of handle {tgt} reads {got!r}, assigned {want!r}")
                         break
+        # oracle 1d + correspondence: read values back through ALL public spellings (on the target, and on the new handle)
+        if status == "ok" and op["op"] in ("assign", "alter", "copy", "pickle", "view", "steady"):
+            rnames = [op["name"]] if op["op"] == "assign" else []
+            rnames.append(["r1", "c1", "a", "x1"][i % 4])
+            for hk in ({tgt, len(handles) - 1} if len(handles) > nh else {tgt}):
+                for rn in rnames:
+                    readback_oracle(ctx, {"spec": spec, "ops": ops[:i]}, handles[hk], rn, f"op #{i - 1} {op['op']}, handle {hk}")
+                    for u in ("T", "F"):
+                        line.append(f"read {hk} {rn} {u}")
+                        reply.append(impl_read(handles[hk], rn, u == "T"))
         # oracle 1c: m[k] / get_variant: Python indexing -- an index outside -N .. N-1 names no variant and must be rejected;
         # an index inside must give exactly that variant's values (variant k IS variant k)
         if op["op"] == "view":
